@@ -10,7 +10,7 @@
     is non-empty, has no '/', and no leading '.' (exact and wild-card names).
     Hostnames with /regex/ segments are the open known finding `regex-host`:
     for them the statements are false ([regex_hosts_order_refuted]). *)
-From Coq Require Import List Arith NArith ZArith Lia.
+From Coq Require Import List Arith NArith ZArith Lia Permutation.
 From SV Require Import Common.Trie Common.TrieProofs C04.Model C04.Proofs.
 Import ListNotations.
 
@@ -109,6 +109,17 @@ Theorem order_independent :
     no_ties re_match path m (a_rules (config re_ok h1) h) ->
     route_lookup re_match (run re_ok re_match h1) h path m = route_lookup re_match (run re_ok re_match h2) h path m.
 Proof. exact order_independent_lemma. Qed.
+
+(** ... in particular: adding the same accepted tree frontends (pairwise
+    distinct (host, path, method)) in any other order gives the same routes *)
+Theorem permuted_adds_route_identically :
+  forall re_ok re_match fs fs' h path m,
+    Forall (tree_front_ok re_ok) fs -> NoDup (map (tree_ident re_ok) fs) -> Permutation fs fs' ->
+    good_key h -> label_of h <> [STAR] ->
+    no_ties re_match path m (a_rules (config re_ok (map OAdd fs)) h) ->
+    route_lookup re_match (run re_ok re_match (map OAdd fs)) h path m
+    = route_lookup re_match (run re_ok re_match (map OAdd fs')) h path m.
+Proof. exact permuted_adds_lemma. Qed.
 
 (** removed_never_routes: a removed tree frontend is not in the configuration
     any more, and every answer is the decision of a matching rule that is in
